@@ -648,6 +648,13 @@ impl<TX> ArcSender<TX> {
         match self.sender().as_mut() {
             Ok(Sender::Ready(s)) => s.update_window(max_stream_data),
             Ok(Sender::Sending(s)) => s.update_window(max_stream_data),
+            // only reachable after 0-RTT rejection shrank the window of a finished stream
+            Ok(Sender::DataSent(s)) => {
+                if max_stream_data > s.sndbuf.max_data() {
+                    s.tx_wakers.wake_all_by(Signals::WRITTEN);
+                    s.sndbuf.extend(max_stream_data);
+                }
+            }
             _ => {}
         }
     }
